@@ -80,9 +80,27 @@ func (w *World) WriteManifest(m Manifest) (string, error) {
 	return m.WriteTo(d)
 }
 
+// FSFor returns the file system and the path inside it through which a manifest file on disk
+// is handed to scalibr's readers: the root of the volume and the path relative to it, as
+// guidedremediation.FixVulns itself does, so that a pom.xml can reach its local parent poms in
+// directories above it.
+func FSFor(path string) (scalibrfs.FS, string) {
+	abs, err := filepath.Abs(path)
+	if err != nil {
+		return scalibrfs.DirFS(filepath.Dir(path)), filepath.Base(path)
+	}
+	root := filepath.VolumeName(abs) + string(filepath.Separator)
+	rel, err := filepath.Rel(root, abs)
+	if err != nil {
+		return scalibrfs.DirFS(filepath.Dir(path)), filepath.Base(path)
+	}
+	return scalibrfs.DirFS(root), filepath.ToSlash(rel)
+}
+
 // Resolve resolves the manifest file at an absolute path with scalibr's reader and resolver.
 func (w *World) Resolve(ctx context.Context, path string, opts options.ResolutionOptions) (*resolve.Graph, error) {
-	return verifhooks.ResolveManifestFile(ctx, w.Oracle, w.System, scalibrfs.DirFS(filepath.Dir(path)), filepath.Base(path), opts)
+	fsys, rel := FSFor(path)
+	return verifhooks.ResolveManifestFile(ctx, w.Oracle, w.System, fsys, rel, opts)
 }
 
 // ResolveModel renders and resolves a manifest model.
